@@ -27,11 +27,13 @@ case "${1:-}" in
   setup)
     [ -d cmd/gencatalog ] && gen
     build .build/vcheck ./cmd/vcheck
+    build .build/crashchild ./cmd/crashchild
     [ -x ./setup_extra.sh ] && ./setup_extra.sh
     echo "setup ok"; exit 0;;
   replay)
     [ -d cmd/gencatalog ] && gen
     build .build/vcheck.$$ ./cmd/vcheck
+    build .build/crashchild ./cmd/crashchild
     .build/vcheck.$$ replay "$2"; rc=$?; rm -f .build/vcheck.$$; exit $rc;;
   "") echo "usage: run.sh <ID> <quick|thorough> | setup | replay <path>" >&2; exit 2;;
 esac
@@ -40,6 +42,7 @@ ID=$1; TIER=${2:-${VERIF_TIER:-quick}}
 [ -d cmd/gencatalog ] && gen
 if [ -x "./checks/$ID.sh" ]; then exec "./checks/$ID.sh" "$TIER"; fi
 build .build/vcheck.$$ ./cmd/vcheck
+[ "$ID" = C19 ] && build .build/crashchild ./cmd/crashchild
 .build/vcheck.$$ "$ID" "$TIER"; rc=$?
 rm -f .build/vcheck.$$
 exit $rc
